@@ -243,13 +243,19 @@ def stmt_start_lines(root):
     return out
 
 
-class SchedLock(object):
-    """replacement for the session's threading.Lock: acquiring a held lock is a forced switch"""
+_RLOCK_TYPE = type(threading.RLock())
 
-    def __init__(self, sched, name='session._lock'):
+
+class SchedLock(object):
+    """replacement for the session's lock: acquiring a lock held by ANOTHER thread is a forced switch.  It is re-entrant exactly when
+    the lock it replaces is (`like` = the lock object the session created: threading.Lock or threading.RLock)"""
+
+    def __init__(self, sched, name='session._lock', like=None):
         self.s = sched
         self.name = name
         self.owner = None
+        self.depth = 0
+        self.reentrant = isinstance(like, _RLOCK_TYPE)
         self.log = []        # (thread, 'acquire'|'release', snapshot)
 
     def _me(self):
@@ -257,6 +263,9 @@ class SchedLock(object):
 
     def acquire(self, blocking=True, timeout=-1):
         me = self._me()
+        if self.reentrant and self.owner == me:
+            self.depth += 1
+            return True
         if not blocking and self.owner is not None:
             self.log.append((me, 'acquire-failed', None))
             return False
@@ -266,10 +275,14 @@ class SchedLock(object):
                 raise ThreadKill()
             self.s.block(me, self.name)
         self.owner = me
+        self.depth = 1
         self.log.append((me, 'acquire', self.s.snapshot() if hasattr(self.s, 'snapshot') else None))
         return True
 
     def release(self):
+        self.depth -= 1
+        if self.depth > 0:
+            return
         self.owner = None
         self.log.append((self._me(), 'release', None))
         self.s.unblock_waiters(self.name)
@@ -333,7 +346,7 @@ def make_ws(c, w, sched, compress_cfg=None):
     sock.connected = True
     s._sock = sock
     s._ready = True
-    s._lock = SchedLock(sched)
+    s._lock = SchedLock(sched, like=s._lock)
     w.session_lock = s._lock
     s._next_ping = 0.0
     s._last_pong = 0.0
@@ -470,7 +483,7 @@ def run_sched(c, P):
         try:
             for ev in gen:
                 if ev.name == 'connecting':
-                    ws.state.session._lock = w.session_lock = SchedLock(sched)
+                    ws.state.session._lock = w.session_lock = SchedLock(sched, like=ws.state.session._lock)
                 elif ev.name == 'ready':
                     sched.unblock_waiters('ready-gate')
                     state['ready'] = True
